@@ -474,9 +474,8 @@ func (self *Analyzer) importItem(node pAst.ImportStatement) ast.AnalyzedImport {
 						item.Span,
 					)
 
-					if _, prevFound := self.currentModule.addTrigger(item.Ident, trigg); prevFound {
-						self.error(fmt.Sprintf("Trigger '%s' already exists in current scope", item.Ident), nil, item.Span)
-					}
+					// do not register the zero-valued trigger: its callback and trigger function types are nil
+					// and every later use (`trigger ... at U()`, `#[trigger at U()]`) would dereference them
 					continue
 				}
 
